@@ -31,6 +31,7 @@ func runC16(c *Ctx) {
 	checkNoteKindSystemFirst(c)
 	checkGithubStickyErrorAndTitle(c)
 	checkIdentityFoundByWhatWasStored(c, "R16.16")
+	checkErrorAssertionsLive(c, "R16.17")
 }
 
 // R16.1
